@@ -80,6 +80,10 @@ pub struct Trace {
     pub par_calls: usize,
     /// number of `point` calls reached by workers
     pub points: usize,
+    /// set when the replay prefix asked for an alternative that did not exist (the program under
+    /// test is not a deterministic function of the schedule, e.g. hash-seeded iteration orders);
+    /// the execution then continued with the default choice and is still a genuine execution
+    pub diverged: Option<String>,
     /// points in the order they were passed: (worker, label, source line of the acquisition)
     pub labels: Vec<(u8, &'static str, u32)>,
 }
@@ -167,11 +171,11 @@ impl Exec {
         if pos < g.prefix.len() {
             c = g.prefix[pos];
             if c as usize >= n {
-                if g.trace.abort.is_none() {
-                    g.trace.abort = Some(Abort::Diverged(format!(
-                        "decision {pos}: prefix wants alternative {c} of {n}"
-                    )));
+                if g.trace.diverged.is_none() {
+                    g.trace.diverged = Some(format!("decision {pos}: prefix wants alternative {c} of {n}"));
                 }
+                // forget the rest of the prefix: from here on the default schedule
+                g.prefix.truncate(pos);
                 c = 0;
             }
         }
